@@ -70,15 +70,22 @@ def eval_case(case):
         elif case["mode"] == "live":
             # the parent state is built AND WRITTEN, then the last edit is made on that same live object
             parent = spec_of({"seed": case["seed"], "edits": case["edits"][:-1]})
-            obj = B.build(parent)
-            B.dumps(obj)
+            try:
+                obj = B.build(parent)
+                B.dumps(obj)
+            except (ValueError, TypeError) as exc:
+                return {"status": "refused", "stage": "parent", "problems": ["the state before the edit is itself refused: %s" % exc_name(exc)]}
             obj.validate()
             B.apply_obj(obj, case["edits"][-1])
         else:
             parent = spec_of({"seed": case["seed"], "edits": case["edits"][:-1]})
             obj = pt.TreeInfo()
             try:
-                obj.loads(B.dumps(B.build(parent)))
+                try:
+                    parent_text = B.dumps(B.build(parent))
+                except (ValueError, TypeError) as exc:
+                    return {"status": "refused", "stage": "parent", "problems": ["the state before the edit is itself refused: %s" % exc_name(exc)]}
+                obj.loads(parent_text)
             except (ValueError, TypeError):
                 raise
             except Exception as exc:                                    # noqa
@@ -187,7 +194,7 @@ def run_unit(unit, acc):
             tag = {"scratch": "cycle", "reloaded": "reloaded-start", "live": "edit-after-write"}[mode]
             if mode == "scratch":
                 scratch_status = o["status"]
-            if o["status"] == "refused" and mode != "scratch" and scratch_status != "refused":
+            if o["status"] == "refused" and mode != "scratch" and scratch_status != "refused" and o.get("stage") != "parent":
                 # the very same description is written when it is built from scratch: reached another way it must be writable too
                 o = {"status": "bad", "problems": ["the description is written when built from scratch, but refused when reached through "
                                                     "%s: %s" % ("a re-read object" if mode == "reloaded" else "an object that had been written before", "; ".join(o["problems"]))]}
